@@ -51,8 +51,27 @@ _CLOCK = re.compile(r"^(\d{2,}):(\d\d):(\d\d)(?:(\.\d+)|:(\d{2,}))?$")
 _OFFSET = re.compile(r"^(\d+(?:\.\d+)?)(h|ms|m|s|f|t)$")
 
 
+ZERO = Fraction(0)
+_TIME_MEMO = {}
+
+
 def parse_time(expr, frame_rate, multiplier, tick_rate):
   """seconds as Fraction.  frame_rate: nominal ttp:frameRate (int), multiplier: Fraction, tick_rate: Fraction."""
+  key = (expr, frame_rate, multiplier, tick_rate)
+  r = _TIME_MEMO.get(key)
+  if r is None:
+    try:
+      r = _parse_time(expr, frame_rate, multiplier, tick_rate)
+    except Malformed as e:
+      r = e
+    if len(_TIME_MEMO) < 20000:
+      _TIME_MEMO[key] = r
+  if isinstance(r, Malformed):
+    raise r
+  return r
+
+
+def _parse_time(expr, frame_rate, multiplier, tick_rate):
   if expr is None:
     raise Malformed("absent")
   eff = Fraction(frame_rate) * multiplier
@@ -749,7 +768,7 @@ class _Interp:
     n.xb = self.time(a.get("begin")) if timed else None
     n.xd = self.time(a.get("dur")) if timed else None
     n.xe = self.time(a.get("end")) if timed else None
-    n.begin = _tadd(sync, n.xb if n.xb is not None else Fraction(0))
+    n.begin = _tadd(sync, n.xb if n.xb is not None else ZERO)
     nested = [c for c in el if c.tag == T_STYLE] if kind == "region" else ()
     n.styles = self.specified(el, (), nested)
 
@@ -786,7 +805,7 @@ class _Interp:
         s.xml = c
         s.sync = child_sync()
         s.xb, s.xd, s.xe = self.time(c.attrib.get("begin")), self.time(c.attrib.get("dur")), self.time(c.attrib.get("end"))
-        s.begin = _tadd(s.sync, s.xb if s.xb is not None else Fraction(0))
+        s.begin = _tadd(s.sync, s.xb if s.xb is not None else ZERO)
         s.end = self.active_end(s, s.begin if seq else None)
         st = parse_style_attrs(c)
         if st:
@@ -857,12 +876,12 @@ class _Interp:
             if rid is None or rid in seen:
               continue
             seen.add(rid)
-            rn = self.content(r, "region", None, Fraction(0), False, ll, ls)
+            rn = self.content(r, "region", None, ZERO, False, ll, ls)
             rn.region = rid
             d.regions.append(rn)
     body = next((c for c in root if c.tag == q(NS_TT, "body")), None)
     if body is not None:
-      d.body = self.content(body, "body", None, Fraction(0), False, d.lang, d.space)
+      d.body = self.content(body, "body", None, ZERO, False, d.lang, d.space)
     return d
 
 
@@ -975,7 +994,7 @@ def probe_times(*canons):
   snapshots of both trees are constant between neighbouring breakpoints, so these instants decide all rational t"""
   k = breakpoints(*canons)
   if not k:
-    return [Fraction(0)]
+    return [ZERO]
   out = []
   if k[0] > 0:
     out.append(k[0] / 2)
